@@ -30,6 +30,9 @@ FINDINGS = {
     "C16-delete-after-recreate-resurrects": "delete, set, delete on a key that is in the file: the set drops the queued delete marker and "
                                             "the second delete sees an object without a file pointer and queues nothing, so the "
                                             "acknowledged delete never reaches the file and the old record is back after re-opening",
+    "C16-summon-replaces-closing-instance": "SummonSwamp does not go back to the swamp map after WaitForGracefulClose: it creates and maps a "
+                                            "fresh instance while the closing one's callback — which removes the map entry by name — is "
+                                            "still to come; the fresh instance is unmapped, its acknowledged writes are never found again",
     "C16-idle-close-loses-acked-write": "the close listener decides from a last-interaction time it read before taking its lock, and "
                                         "SummonSwamp hands out the instance before the caller's BeginVigil: a request that was just "
                                         "handed the instance writes into an instance that is already closed; the acknowledged write is "
@@ -48,7 +51,7 @@ def spec_violated(rep):
             live[f[1]] = f[2]
         if f[0] == "del" and line == "DELETED":
             live.pop(f[1], None)
-        if f[0] == "spawn":
+        if f[0] in ("spawn", "spawnw"):
             pend[f[1]] = f[2:]
         m = re.match(r"(\w) done (\w+)", line)
         if m and m.group(1) in pend:
@@ -76,7 +79,7 @@ def run(ctx):
     corrs = []
     if K.build_hx(ctx) and K.build_drv(ctx):
         args = ["%s=%s" % (k, facts.get(k, "unknown")) for k in
-                ("destroyRechecksAfterDrain", "listenerReadsTouchUnderLock", "summonTakesVigil", "recreateDropsDeleteMarker")]
+                ("destroyRechecksAfterDrain", "listenerReadsTouchUnderLock", "summonTakesVigil", "recreateDropsDeleteMarker", "summonWaitsForUnmap")]
         c = K.correspondence(ctx, "C16", args, timeout=900)
         corrs.append(("C16", args, c))
     else:
